@@ -5,8 +5,9 @@
    repairs); `flags_fixed` = both adapter repairs in. *)
 From Coq Require Import ZArith List Bool String.
 Import ListNotations.
-Require Import OV.Gen.VersionTables OV.Version.Model OV.Version.Adapters OV.Version.AdaptersProofs
-               OV.Version.ConvertProofs OV.Version.Std OV.Version.StdProofs.
+Require Import OV.Gen.VersionTables OV.Gen.VersionSchemas OV.Version.Model OV.Version.Adapters OV.Version.AdaptersProofs
+               OV.Version.ConvertProofs OV.Version.Std OV.Version.StdProofs
+               OV.Version.Schema OV.Version.SchemaProofs OV.Version.SchemaStd OV.Version.SchemaStdProofs.
 Open Scope Z_scope.
 
 (* ---- convert_consistent: a conversion that finishes without a logged skip declares the target
@@ -270,3 +271,121 @@ Theorem C10_registry_ghost_quiet : forall fx n k cnt k' log,
   std_adapt fx (n_op n) k n <> ANone -> k < k' -> ghost (std_adapt fx) n k' cnt log = (None, log).
 Proof. exact std_ghost_quiet. Qed.
 Print Assumptions C10_registry_ghost_quiet.
+
+(* ---- the silent majority: nodes WITHOUT an adapter are only re-stamped.  That is right iff the schema in force at
+   the next opset accepts every node the previous one accepted, reading omitted attributes the same way.
+   Schemas: Gen/VersionSchemas.v, regenerated from the installed onnx.defs (every ai.onnx operator, the schema in
+   force at supported_min and every later version up to supported_max).
+   upward_compat_sound: for ALL node views (any arity, any types, any attributes). *)
+Theorem C10_upward_compat_sound : forall o n, upward_compatb o n = true ->
+  forall x, node_valid o x = true -> node_valid n x = true.
+Proof. exact upward_compat_sound. Qed.
+Print Assumptions C10_upward_compat_sound.
+
+(* ... no attribute removed, same kind and same default (an omitted attribute keeps its meaning); whatever is
+   required by the new schema was required by the old one *)
+Theorem C10_upward_compat_attrs : forall o n, upward_compatb o n = true ->
+  (forall d, In d (sc_attrs o) -> exists d', In d' (sc_attrs n) /\ ad_name d' = ad_name d /\
+                                             ad_kind d' = ad_kind d /\ ad_default d' = ad_default d) /\
+  (forall d', In d' (sc_attrs n) -> ad_req d' = true ->
+              exists d, In d (sc_attrs o) /\ ad_name d = ad_name d' /\ ad_req d = true).
+Proof. exact upward_compat_attrs. Qed.
+Print Assumptions C10_upward_compat_attrs.
+
+(* ... no input/output position removed, added inputs are optional *)
+Theorem C10_upward_compat_formals : forall o n, upward_compatb o n = true ->
+  (List.length (sc_ins o) <= List.length (sc_ins n))%nat /\ (List.length (sc_outs o) <= List.length (sc_outs n))%nat /\
+  Forall (fun f => fm_opt f = FOptional) (skipn (List.length (sc_ins o)) (sc_ins n)).
+Proof. exact upward_compat_formals. Qed.
+Print Assumptions C10_upward_compat_formals.
+
+Theorem C10_upward_compat_examples :
+  step_compat "Cast" 0 = Some true /\ step_compat "DFT" 0 = Some false /\ step_compat "GridSample" 0 = Some false /\
+  step_compat "GroupNormalization" 0 = Some true /\ step_compat "QuantizeLinear" 0 = Some false /\ step_compat "QuantizeLinear" 2 = Some true.
+Proof. exact upward_compat_examples. Qed.
+Print Assumptions C10_upward_compat_examples.
+
+(* the generated obligation (vm_compute over the regenerated tables): every version step of every operator inside the
+   supported range has a registered adapter, or is upward compatible, or is one of the listed exceptions ... *)
+Theorem C10_schema_table_obligation : forall op h, In (op, h) schema_table ->
+  chainb (fun k => adapted_at registry_keys op k || excepted schema_exceptions op k) h = true.
+Proof. exact table_steps. Qed.
+Print Assumptions C10_schema_table_obligation.
+
+(* ... and the exceptions are exactly the listed ones: QuantizeLinear 18 -> 19 *)
+Theorem C10_schema_exceptions_exact : table_exceptions registry_keys schema_table = [("QuantizeLinear"%string, 19)].
+Proof. exact exceptions_exact. Qed.
+Print Assumptions C10_schema_exceptions_exact.
+
+(* the FULL statement "every un-adapted step is upward compatible" *)
+Definition C10_unadapted_steps_compatible_full : Prop := table_exceptions registry_keys schema_table = [].
+(* is REFUTED: QuantizeLinear(x : int32, y_scale : float) is valid under the schema of opset 13..18, invalid under the
+   schema of 19..22 (x and y_scale bound to one type variable), valid again from 23, and no adapter is registered.
+   Replayed on the real code by the harness (finding C10:native:QuantizeLinear-18-19:...). *)
+Theorem C10_unadapted_steps_compatible_refuted :
+  valid_at schema_table "QuantizeLinear" 18 ql_int32 = true /\
+  valid_at schema_table "QuantizeLinear" 19 ql_int32 = false /\
+  valid_at schema_table "QuantizeLinear" 22 ql_int32 = false /\
+  valid_at schema_table "QuantizeLinear" 23 ql_int32 = true /\
+  adapted_at registry_keys "QuantizeLinear" 18 = false.
+Proof. exact quantizelinear_19_refuted. Qed.
+Print Assumptions C10_unadapted_steps_compatible_refuted.
+
+(* valid under the schema in force at s => valid under the schema in force at t, for every operator without an
+   adapter, unless a listed exception lies in (s, t] *)
+Theorem C10_restamped_valid : forall n n' info s t,
+  strip n' = strip n -> q_std (n_op n) = true -> clear_of schema_exceptions (n_op n) s t = true -> s <= t ->
+  valid_at schema_table (n_op n) s (vnode_of n info) = true ->
+  valid_at schema_table (n_op n') t (vnode_of n' info) = true.
+Proof. exact restamped_valid. Qed.
+Print Assumptions C10_restamped_valid.
+
+(* ---- connected to the state machine: the "passes the checker against t" half of the property for the native path.
+   A model all of whose default-domain operators (main graph, subgraphs, functions) have no adapter is converted by
+   re-stamping only -- same nodes up to versions, recursively (strip forgets versions at every depth) -- and every node
+   (at any depth: the last conjunct holds for any pair of nodes equal up to versions) that is valid under the schema
+   of the source opset is valid under the schema of the target opset.
+   _partial: nodes handled by an adapter (DFT, GridSample, GroupNormalization) are not covered by the validity
+   conjunct (their replacement nodes carry no type information in this model); "valid" is schema validity (arity,
+   attributes, types, type-variable binding), not shape inference or attribute *values*; equality of outputs is
+   observed (backend node tests relabelled to the old opset), not proved. *)
+Theorem C10_convert_valid_unadapted_partial : forall fx fuel s t M M' l,
+  consistent_at s M = true ->
+  forallb (quietb q_std) (m_graph M) = true ->
+  forallb (fun f => forallb (quietb q_std) (f_nodes f)) (m_funcs M) = true ->
+  convert_native (std_adapt fx) supported_min supported_max fuel M t = MDone M' l ->
+  Forall2 (fun n n' => strip n' = strip n) (m_graph M) (m_graph M') /\
+  Forall2 (fun f f' => Forall2 (fun n n' => strip n' = strip n) (f_nodes f) (f_nodes f')) (m_funcs M) (m_funcs M') /\
+  m_decl M' = Some t /\ t <= supported_max /\
+  (s <= t -> forall n n' info, strip n' = strip n -> q_std (n_op n) = true ->
+     clear_of schema_exceptions (n_op n) s t = true ->
+     valid_at schema_table (n_op n) s (vnode_of n info) = true ->
+     valid_at schema_table (n_op n') t (vnode_of n' info) = true).
+Proof. exact native_unadapted_valid. Qed.
+Print Assumptions C10_convert_valid_unadapted_partial.
+
+Theorem C10_convert_valid_unadapted_example : exists M',
+  consistent_at 18 ex_quiet_model = true /\
+  forallb (quietb q_std) (m_graph ex_quiet_model) = true /\
+  std_native flags_current ex_quiet_model 25 = MDone M' [] /\
+  valid_at schema_table "Cast" 18 (vnode_of cast_node cast_info) = true /\
+  valid_at schema_table "If" 18 (vnode_of if_node if_info) = true /\
+  clear_of schema_exceptions "Cast" 18 25 = true /\
+  forallb (fun n' => valid_at schema_table (n_op n') 25 (vnode_of n' (if String.eqb (n_op n') "If" then if_info else cast_info))) (m_graph M') = true.
+Proof. exact native_unadapted_example. Qed.
+Print Assumptions C10_convert_valid_unadapted_example.
+
+(* ---- model-local functions.  The loop reads the version of a function's nodes from the MODEL's import
+   (self._default_onnx_opset), not from the function's own opset_import.  Internal entry only (the public entry
+   inlines first and onnx_ir's InlinePass refuses functions whose opset differs from the model's; measured):
+   a function written for opset 19 inside an opset-20 model is stamped 21 with its DFT node still carrying the
+   opset-19 `axis` attribute -- valid under the schema of 19, invalid under the schema of 21. *)
+Theorem C10_native_function_opset_ignored_refuted : forall fx, exists M M' f',
+  m_decl M = Some 20 /\ forallb (at_version 20) (m_graph M) = true /\
+  forallb (func_at 19) (m_funcs M) = true /\
+  std_native fx M 21 = MDone M' [] /\ m_funcs M' = [f'] /\ f_decl f' = Some 21 /\
+  valid_at schema_table "DFT" 19 (vnode_of dft_axis1 dft_info) = true /\
+  forallb (fun n' => valid_at schema_table (n_op n') 21 (vnode_of n' dft_info)) (f_nodes f') = false /\
+  map strip (f_nodes f') = [strip dft_axis1].
+Proof. exact native_function_opset_ignored. Qed.
+Print Assumptions C10_native_function_opset_ignored_refuted.
